@@ -130,14 +130,16 @@ def newElem (s : Sh) (due : Nat) (id : Option Nat) (kind : Kind) (tag : Nat) : E
   { serial := s.next, due := due, id := id, kind := kind, tag := tag }
 
 /-- `Queue.Add`: refused after shutdown; otherwise the new element goes in and, if the bound is
-exceeded, one element (`d`) goes out. -/
+exceeded, one element (`d`) goes out and its cancel channel is closed. -/
 theorem add_cases (s : Sh) (due : Nat) (id : Option Nat) (kind : Kind) (tag : Nat) :
     (s.isShutdown = true ∧ (add s due id kind tag).1 = s ∧ ∀ x, (add s due id kind tag).2 ≠ .ok x) ∨
     (s.isShutdown = false ∧ (add s due id kind tag).2 = .ok s.next ∧
-      ∃ h2 new, (add s due id kind tag).1 =
-          signal { s with next := s.next + 1, heap := h2, log := new ++ Ev.sched s.next id due :: s.log } ∧
-        ((new = [] ∧ h2.Perm (newElem s due id kind tag :: s.heap)) ∨
-         (∃ d, new = [.dropSize d.serial] ∧ (newElem s due id kind tag :: s.heap).Perm (d :: h2) ∧ 0 < s.maxSize))) := by
+      ∃ h2 new cl, (add s due id kind tag).1 =
+          signal { s with next := s.next + 1, heap := h2, closed := cl,
+                          log := new ++ Ev.sched s.next id due :: s.log } ∧
+        ((new = [] ∧ cl = s.closed ∧ h2.Perm (newElem s due id kind tag :: s.heap)) ∨
+         (∃ d, new = [.dropSize d.serial] ∧ cl = d.serial :: s.closed ∧
+            (newElem s due id kind tag :: s.heap).Perm (d :: h2) ∧ 0 < s.maxSize))) := by
   unfold add
   cases hs : s.isShutdown with
   | true =>
@@ -165,8 +167,9 @@ theorem add_cases (s : Sh) (due : Nat) (id : Option Nat) (kind : Kind) (tag : Na
         obtain ⟨_, hperm⟩ := Heap.removeAt_perm hr
         simp only [newElem] at hr
         simp only [hr]
-        refine ⟨trivial, h2, [.dropSize d.serial], rfl, Or.inr ⟨d, rfl, hpush.symm.trans hperm, hbound.1⟩⟩
-    · exact ⟨rfl, _, [], rfl, Or.inl ⟨rfl, hpush⟩⟩
+        refine ⟨trivial, h2, [.dropSize d.serial], d.serial :: s.closed, rfl,
+          Or.inr ⟨d, rfl, rfl, hpush.symm.trans hperm, hbound.1⟩⟩
+    · exact ⟨rfl, _, [], s.closed, rfl, Or.inl ⟨rfl, rfl, hpush⟩⟩
 
 /-! ## `sd1`, `sd3` -/
 
